@@ -23,6 +23,21 @@ func (x *Exec) guardCheck(st *State, p Val, write bool) {
 }
 
 func (x *Exec) guardCheckField(st *State, field string, ref Term, write bool) {
+	if ws, ok := x.eng.immutable[field]; ok && write && !isFreshTerm(ref) {
+		allowed := false
+		me := shortFuncName(funcKey(x.fn))
+		for _, w := range ws {
+			if w == me {
+				allowed = true
+			}
+		}
+		name := "immutable:" + field
+		if allowed {
+			st.obls = append(st.obls, Obl{Name: name, Tags: []string{"C08", "C09"}, Goal: TTrue, PCLen: len(st.pc), Static: "ok", Desc: field + " written by a declared writer"})
+		} else {
+			st.obligeStaticFail(name, []string{"C08", "C09"}, "write of "+field+" outside its declared writers "+strings.Join(ws, ", "))
+		}
+	}
 	if x.spec.OnceBody {
 		return
 	}
